@@ -1,11 +1,11 @@
 (* C20 - model of listener/canary/unique-set.go, listener/canary/knock.go and the three
-   knockChan send sites of listener/canary/canary_linux.go.  Executable definitions only.
+   knockChan send sites of listener/canary/canary_linux.go (as repaired by the commits
+   "UniqueSet.Each iterates over a copy" and "canary queues the TCP knock where a SYN is
+   handled; UDP knock groups carry ProtocolUDP").  Executable definitions only.
 
-   UniqueSet: between operations the set is its live slice (list A).  Each(fn) iterates
-   over an ALIAS of the same backing array (items := us.items[:]); Remove called from fn
-   rewrites that array in place (us.items[i] = nil; append(us.items[:i], us.items[i+1:]...)),
-   so Each is modelled on an explicit array of slots with an explicit live length.
-   Objects have an identity (pointer): idf.  Times are milliseconds (Z). *)
+   UniqueSet: the set is its live slice (list A).  Objects have an identity (pointer): idf.
+   Each(fn) iterates over a COPY of the slice taken when it starts; fn may call Remove, which
+   acts on the live slice only.  Times are milliseconds (Z). *)
 From HT Require Import Common.Bytes.
 Open Scope Z_scope.
 
@@ -33,74 +33,26 @@ Section USet.
   Definition ufind (f : A -> bool) (s : list A) : option A := find f s.
   Definition ucount (s : list A) : nat := length s.
 
-  (* ---- the backing array during Each ---- *)
-  Record warr := mkW { w_arr : list (option A); w_len : nat }.
-
-  Definition slot_is (x : A) (o : option A) : bool :=
-    match o with Some y => same x y | None => false end.
-
-  (* first index of a slot identical to x *)
-  Fixpoint index_of (x : A) (l : list (option A)) : option nat :=
-    match l with
-    | [] => None
-    | o :: r => if slot_is x o then Some O
-                else match index_of x r with Some j => Some (S j) | None => None end
+  (* items := append(nil, us.items...); for i, item := range items { fn(i, item) } where fn
+     removes the visited item when rm says so (the deferred knocks.Remove(k) of the tick):
+     the loop walks the copy, every Remove acts on the live slice as it then is.
+     Result: the items visited in order, and the set afterwards. *)
+  Fixpoint each_loop (rm : A -> bool) (copy : list A) (livesl : list A) : list A * list A :=
+    match copy with
+    | [] => ([], livesl)
+    | x :: r =>
+        let l' := if rm x then uremove x livesl else livesl in
+        let '(vis, l'') := each_loop rm r l' in (x :: vis, l'')
     end.
 
-  Definition live (w : warr) : list (option A) := firstn (w_len w) (w_arr w).
-
-  (* Remove(x) on the array: arr[j] = nil; arr[j+1..L) is copied to arr[j..L-1); the slot
-     L-1 keeps what it held (nil if j = L-1); the live length becomes L-1 *)
-  Definition w_remove (x : A) (w : warr) : warr :=
-    match index_of x (live w) with
-    | None => w
-    | Some j =>
-        let L := w_len w in
-        let a := w_arr w in
-        let lastv := if Nat.eqb j (L - 1) then None else nth (L - 1) a None in
-        mkW (firstn j a ++ firstn (L - 1 - j) (skipn (S j) a) ++ [lastv] ++ skipn L a) (L - 1)
-    end.
-
-  (* for i, item := range items { fn(i, item) } where fn removes the visited item when rm says so
-     (the deferred knocks.Remove(k) runs when fn returns); the slot read may be nil *)
-  Fixpoint each_loop (rm : A -> bool) (idx : list nat) (w : warr) : list (option A) * warr :=
-    match idx with
-    | [] => ([], w)
-    | i :: r =>
-        let o := nth i (w_arr w) None in
-        let w' := match o with
-                  | Some x => if rm x then w_remove x w else w
-                  | None => w
-                  end in
-        let '(vis, w'') := each_loop rm r w' in (o :: vis, w'')
-    end.
-
-  Fixpoint somes (l : list (option A)) : list A :=
-    match l with
-    | [] => []
-    | Some x :: r => x :: somes r
-    | None :: r => somes r
-    end.
-
-  (* visited slots in order, and the set afterwards *)
-  Definition each_rm (rm : A -> bool) (s : list A) : list (option A) * list A :=
-    let '(vis, w) := each_loop rm (seq 0 (length s)) (mkW (map Some s) (length s)) in
-    (vis, somes (live w)).
+  Definition each_rm (rm : A -> bool) (s : list A) : list A * list A := each_loop rm s s.
 End USet.
 
 Arguments uadd {A}.
 Arguments uremove {A}.
 Arguments each_rm {A}.
 Arguments each_loop {A}.
-Arguments w_remove {A}.
-Arguments index_of {A}.
-Arguments live {A}.
-Arguments somes {A}.
-Arguments mkW {A}.
-Arguments w_arr {A}.
-Arguments w_len {A}.
 Arguments same {A}.
-Arguments slot_is {A}.
 
 (* ---------------------------------------------------------------- knocks and groups *)
 Inductive kind := KTcp | KUdp | KIcmp.
@@ -117,9 +69,9 @@ Record group := mkGroup {
   g_id : N; g_kind : kind; g_smac : N; g_dmac : N; g_sip : N; g_dip : N;
   g_start : Z; g_last : Z; g_count : Z; g_knocks : list knock }.
 
-(* KnockUDPPort.NewGroup leaves Protocol at its zero value, which is ProtocolTCP *)
+(* the Protocol field set by the three NewGroup functions *)
 Definition proto_of (k : kind) : N :=
-  match k with KTcp => 0 | KUdp => 0 | KIcmp => 2 end%N.
+  match k with KTcp => 0 | KUdp => 1 | KIcmp => 2 end%N.
 
 Definition group_eq (a b : group) : bool :=
   ((proto_of (g_kind a) =? proto_of (g_kind b)) && (g_smac a =? g_smac b) &&
@@ -168,54 +120,28 @@ Record report := mkReport {
 Definition report_of (g : group) : report :=
   mkReport (g_smac g) (g_dmac g) (g_sip g) (g_dip g) (map port_of (g_knocks g)).
 
-Definition is_none {A} (o : option A) : bool := match o with None => true | _ => false end.
-
-(* TickPanic: a nil slot reaches the type assertion to a KnockGroup pointer in the detector goroutine (no recover) *)
-Inductive tick_out := TickOk (reports : list report) (d : det) | TickPanic.
-
-Definition tick (now : Z) (d : det) : tick_out :=
+Definition tick (now : Z) (d : det) : list report * det :=
   let '(vis, gs) := each_rm g_id (tick_rm now) (d_groups d) in
-  if existsb is_none vis then TickPanic
-  else TickOk (map report_of (filter (due now) (somes vis))) (mkDet gs (d_next d)).
-
-(* the tick once Each iterates over a copy of the slice (fixes/C20-each-iterates-over-copy.patch):
-   every member is visited once, the removals act on the live slice only.  NOT the code as it
-   stands; used to state what the repair achieves. *)
-Definition each_rm_copy {A} (idf : A -> N) (rm : A -> bool) (s : list A) : list (option A) * list A :=
-  (map Some s, fold_left (fun l x => uremove idf x l) (filter rm s) s).
-
-Definition tick_repaired (now : Z) (d : det) : tick_out :=
-  let '(vis, gs) := each_rm_copy g_id (tick_rm now) (d_groups d) in
-  if existsb is_none vis then TickPanic
-  else TickOk (map report_of (filter (due now) (somes vis))) (mkDet gs (d_next d)).
+  (map report_of (filter (due now) vis), mkDet gs (d_next d)).
 
 Inductive devent := DKnock (k : knock) (t : Z) | DTick (now : Z).
 
-(* the select loop: reports of every tick in order; None = the goroutine panicked *)
-Fixpoint run_with (tk : Z -> det -> tick_out) (evs : list devent) (d : det)
-  : option (list (list report) * det) :=
+(* the select loop: the reports of every tick, in order *)
+Fixpoint run (evs : list devent) (d : det) : list (list report) * det :=
   match evs with
-  | [] => Some ([], d)
-  | DKnock k t :: r => run_with tk r (step_knock k t d)
+  | [] => ([], d)
+  | DKnock k t :: r => run r (step_knock k t d)
   | DTick now :: r =>
-      match tk now d with
-      | TickPanic => None
-      | TickOk reps d' =>
-          match run_with tk r d' with
-          | Some (rs, d'') => Some (reps :: rs, d'')
-          | None => None
-          end
-      end
+      let '(reps, d') := tick now d in
+      let '(rs, d'') := run r d' in (reps :: rs, d'')
   end.
-
-Definition run := run_with tick.
 
 Definition run_knocks (ks : list (knock * Z)) (d : det) : det :=
   fold_left (fun d kt => step_knock (fst kt) (snd kt) d) ks d.
 
 (* ---------------------------------------------------------------- which frames queue a knock *)
-(* handleTCP up to the knockChan send, as its sequence of early returns.  The fields that
-   the TCP state machine (C14) decides are inputs. *)
+(* handleTCP up to its only knockChan send (in the Listen branch).  The fields that the TCP
+   state machine (C14) decides are inputs. *)
 Inductive sstate := SListen | SSynSent | SSynReceived | SEstablished | SFinWait1 | SFinWait2
                   | SCloseWait | SClosing | SLastAck | STimeWait | SClosed.
 
@@ -223,23 +149,24 @@ Record tcpin := mkTcpIn {
   t_parse_ok : bool; t_is_me : bool; t_port22 : bool;
   t_syn : bool; t_ack : bool; t_rst : bool;
   t_state : option sstate;       (* stateTable.Get for the 4-tuple *)
+  t_table_ok : bool;             (* stateTable.Add finds a slot *)
   t_ack_acceptable : bool }.     (* SND.UNA <= SEG.ACK <= SND.NXT *)
 
+(* a SYN without ACK always creates a NEW state in Listen (also for a 4-tuple that already has
+   one), which the Listen branch answers with SYN|ACK and reports to the detector *)
 Definition tcp_queues_knock (i : tcpin) : bool :=
   if negb (t_parse_ok i) then false
   else if negb (t_is_me i) then false
   else if t_port22 i then false
+  else if t_syn i && negb (t_ack i) && negb (t_table_ok i) then false   (* table full: dropped *)
   else
     let st := if t_syn i && negb (t_ack i) then Some SListen else t_state i in
     match st with
     | None => false
     | Some s =>
-        if (match s with SListen => true | _ => false end) && t_syn i then false  (* SYN|ACK sent, return *)
-        else if t_rst i && (match s with SSynReceived | SCloseWait | STimeWait => true | _ => false end) then false
-        else if t_syn i then false             (* if hdr.HasFlag(tcp.SYN) { return nil } *)
-        else if negb (t_ack i) then false
-        else if (match s with SSynReceived => true | _ => false end) && negb (t_ack_acceptable i) then false
-        else t_syn i                           (* if hdr.Ctrl&tcp.SYN == tcp.SYN { c.knockChan <- KnockTCPPort } *)
+        if (match s with SListen => true | _ => false end) && t_syn i
+        then true                              (* c.knockChan <- KnockTCPPort; return *)
+        else false                             (* no other path sends a knock *)
     end.
 
 Definition udp_decoder_ports : list N := [53; 123; 1900; 5060; 161; 162]%N.
@@ -259,7 +186,7 @@ Definition knocks_of_probe (st : option sstate) (ackok : bool) (p : probe) : lis
   let mk k port := mkKnock k (src_mac (p_src p)) dst_mac (src_ip (p_src p)) dst_ip port in
   match p_proto p with
   | 0%N => if tcp_queues_knock (mkTcpIn true true ((p_port p =? 22)%N) (flag (p_flags p) 1)
-                                        (flag (p_flags p) 4) (flag (p_flags p) 2) st ackok)
+                                        (flag (p_flags p) 4) (flag (p_flags p) 2) st true ackok)
            then [mk KTcp (p_port p)] else []
   | 1%N => if existsb (N.eqb (p_port p)) udp_decoder_ports then [] else [mk KUdp (p_port p)]
   | _ => [mk KIcmp 0%N]
